@@ -90,7 +90,7 @@ def run(ck, m):
             ck.ob('C03.a', fn, '%s:notified' % meth, ok,
                   'the %s at %s is followed on every path by a notification (%s); %s' % (meth, b.loc(bi), b.loc(post[0]), why),
                   b.loc(bi))
-        elif pts and any(bi in b.reach_from([bi]) for _ in [0]) and any(p in b.reach_from([bi]) for p in pts):
+        elif pts and any(p in b.reach_from([bi]) for p in pts):
             ck.ob('C03.a', fn, '%s:notified' % meth, False,
                   'the %s at %s reaches a return without passing the notification at %s' % (meth, b.loc(bi), b.loc(pts[0])),
                   b.loc(bi))
